@@ -14,6 +14,7 @@ import OapiVerif.Model.DeepObject
 import OapiVerif.Model.GoJson
 import OapiVerif.Model.EnumClash
 import OapiVerif.Model.Combine
+import OapiVerif.Model.IntParse
 /-!
 Line-protocol driver: one JSON object per line in, one per line out.
 `{"fn": <name>, ...}` ↦ `{"ok": <result>}` or `{"err": "bad-op"}` (never a default).
@@ -357,6 +358,15 @@ def combineParamsD (j : Json) : Except String Json := do
     | .ok r => Json.mkObj [("ok", Json.arr (r.map fun d => Json.num d.tag).toArray)]
     | .error e => Json.mkObj [("error", e)])
 
+/-- integer parameters: text -> value for a destination of `bits` bits, and the decimal rendering of a value -/
+def parseIntD (j : Json) : Except String Json := do
+  let s ← getHex j "s"
+  let bits ← j.getObjValAs? Nat "bits"
+  let r := match IntParse.parseInt bits s with
+    | .ok v => Json.mkObj [("ok", Json.str (toString v))]
+    | .error .rejected => Json.mkObj [("error", "rejected")]
+  pure r
+
 def goQuoteD (j : Json) : Except String Json := do
   let s ← getHex j "s"
   let q := Enums.quoteGo s
@@ -515,6 +525,7 @@ def dispatch (fn : String) (j : Json) : Except String Json :=
   | "enumNames" => enumNamesD j
   | "enumFlags" => enumFlagsD j
   | "combineParams" => combineParamsD j
+  | "parseInt" => parseIntD j
   | "goQuote" => goQuoteD j
   | "secDefs" => secDefsD j
   | "provider" => providerD j
